@@ -12,7 +12,7 @@ META = dict(
               "_sync_failure_outcome + determine_action_from_outcome from an ARBITRARY state (all 8 classes, both "
               "causes, attempt/counters/limits/cap unbounded ints, real timings, budget fill, poll answers, handler "
               "decision, sleeper overshoot)",
-        thorough="(a) N=3, (b) N=4, (c) N=4, everything-at-once N=2, step harness unchanged (unbounded)",
+        thorough="(a) N=3, (b) N=4, (c) N=4, caps x strategy presence x budget x abort x handler at once at N=2, step harness unchanged (unbounded)",
     ),
     assumptions=[
         "time advances only inside the operation and the sleeper; TD linear timedelta stub; floats as reals",
@@ -357,12 +357,14 @@ def jobs(tier):
                         params=dict(entry=entry, N=2, kinds=["ok", "exc", "res"], classes=["TRANSIENT"], abort=True, handler=True,
                                     budget="sym", falsy=True), max_wall_s=wall, weight=1))
     if not q:
+        # everything at once except real-valued timings (those are in (b)), N=2, split by the first outcome
         for entry in CORE:
-            out.append(dict(name=f"all:{entry}", harness="rv.props.c03:h_run",
-                            params=dict(entry=entry, N=2, kinds=kinds, classes=three, limits=["TRANSIENT", "UNKNOWN"],
-                                        cap="sym", strat=dict(table=["TRANSIENT"], default="sym", raw="real"),
-                                        budget="sym", timed=True, abort=True, handler=True),
-                            max_wall_s=wall, weight=5))
+            for o1 in range(3):
+                out.append(dict(name=f"all:{entry}:o1={kinds[o1]}", harness="rv.props.c03:h_run",
+                                params=dict(entry=entry, N=2, kinds=kinds, classes=three, limits=["TRANSIENT", "UNKNOWN"],
+                                            cap="sym", strat=dict(table=["TRANSIENT"], default="sym"),
+                                            budget="sym", abort=True, handler=True, pin={"o1": o1}),
+                                max_wall_s=wall, weight=5 if o1 else 1))
     # step harness, split by class
     for ki in range(8):
         out.append(dict(name=f"step:k={list(EC)[ki].name}", harness="rv.props.c03:h_step", params=dict(pin_k=ki),
